@@ -134,6 +134,9 @@ namespace GeographicLib {
               // If mmx = -1 then the sums are empty so require nmx = -1 also.
               (_nmx == -1 && _mmx == -1)))
           throw GeographicErr("Bad indices for coeff");
+        // Make sure that index doesn't overflow
+        if (!(_nNx < (1 << 14)))
+          throw GeographicErr("Degree too large in coeff");
         if (!(index(_nmx, _mmx) < int(C.size()) &&
               index(_nmx, _mmx) < int(S.size()) + (_nNx + 1)))
           throw GeographicErr("Arrays too small in coeff");
@@ -162,6 +165,9 @@ namespace GeographicLib {
       {
         if (!(_nNx >= -1))
           throw GeographicErr("Bad indices for coeff");
+        // Make sure that index doesn't overflow
+        if (!(_nNx < (1 << 14)))
+          throw GeographicErr("Degree too large in coeff");
         if (!(index(_nmx, _mmx) < int(C.size()) &&
               index(_nmx, _mmx) < int(S.size()) + (_nNx + 1)))
           throw GeographicErr("Arrays too small in coeff");
